@@ -4043,6 +4043,13 @@ EmitX86M:
   ASMJIT_ASSERT(rm_rel->op_type() == OperandType::kMem);
   ASMJIT_ASSERT((opcode & Opcode::kCDSHL_Mask) == 0);
 
+  // FWAIT (9B) of FPU instructions like FSTCW is an instruction on its own - it must precede all prefixes, which
+  // would otherwise apply to FWAIT and not to the instruction that follows it.
+  if ((opcode.v & Opcode::kPP_FPUMask) == Opcode::kPP_9B) {
+    writer.emit8(0x9B);
+    opcode &= ~uint32_t(Opcode::kPP_FPUMask);
+  }
+
   // Emit override prefixes.
   rm_info = mem_info_table[rm_rel->as<Mem>().base_and_index_types()];
   writer.emit_segment_override(rm_rel->as<Mem>().segment_id());
